@@ -5,6 +5,9 @@ import PyTRS.Model.Aliquot
 import PyTRS.Model.Unpack
 import PyTRS.Model.Tract
 import PyTRS.Model.TRS
+import PyTRS.Model.Plss
+import PyTRS.Model.Config
+import PyTRS.Model.Objects
 open PyTRS
 namespace Driver
 
@@ -57,7 +60,116 @@ def flagsPy (f : Tract.Flags) : List (PyVal × PyVal) :=
   [(.str "w_flags".toList, .list f.w), (.str "w_flag_lines".toList, .list f.wl),
    (.str "e_flags".toList, .list f.e), (.str "e_flag_lines".toList, .list f.el)]
 
+/-- generic keyword encoding: `k=v,k=v` with v one of `~ T F i<int> s<hex>` -/
+inductive KV where
+  | none | b (v : Bool) | i (v : Int) | s (v : Str)
+  deriving Inhabited
+
+def decKV (f : String) : KV :=
+  if f == "~" then .none else if f == "T" then .b true else if f == "F" then .b false
+  else if f.startsWith "i" then .i ((f.drop 1).toString.toInt?.getD 0)
+  else if f.startsWith "s" then .s (decText (f.drop 1).toString)
+  else .none
+
+def decKwargs (f : String) : List (String × KV) :=
+  if f.isEmpty then [] else
+  (f.splitOn ",").filterMap (fun kv => match kv.splitOn "=" with
+    | [k, v] => some (k, decKV v)
+    | _ => Option.none)
+
+def kwB (kw : List (String × KV)) (k : String) : Option Bool :=
+  match kw.find? (fun e => e.1 == k) with | some (_, .b v) => some v | _ => none
+def kwI (kw : List (String × KV)) (k : String) : Option Int :=
+  match kw.find? (fun e => e.1 == k) with | some (_, .i v) => some v | _ => none
+def kwS (kw : List (String × KV)) (k : String) : Option Str :=
+  match kw.find? (fun e => e.1 == k) with | some (_, .s v) => some v | _ => none
+
+def decMC (ns ew : String) : Plss.MC := { ns := decText ns, ew := decText ew }
+
+def decCfgArg (f : String) : Obj.CfgArg :=
+  if f == "~" then .none else if f == "?" then .other else .text (decText f)
+
+def descKw (kw : List (String × KV)) : Obj.DescKw :=
+  { layout := kwS kw "layout", defaultNS := kwS kw "default_ns", defaultEW := kwS kw "default_ew",
+    cleanUp := kwB kw "clean_up", parseQQ := kwB kw "parse_qq", cleanQQ := kwB kw "clean_qq",
+    secColonCautious := kwB kw "sec_colon_cautious", secColonRequired := kwB kw "sec_colon_required",
+    segment := kwB kw "segment", ocrScrub := kwB kw "ocr_scrub", secWithin := kwB kw "sec_within",
+    qqDepthMin := kwI kw "qq_depth_min", qqDepthMax := kwI kw "qq_depth_max", qqDepth := kwI kw "qq_depth",
+    breakHalves := kwB kw "break_halves" }
+
+def tractKw (kw : List (String × KV)) : Obj.TractKw :=
+  { cleanQQ := kwB kw "clean_qq", suppressLotDivs := kwB kw "suppress_lot_divs",
+    qqDepthMin := kwI kw "qq_depth_min", qqDepthMax := kwI kw "qq_depth_max", qqDepth := kwI kw "qq_depth",
+    breakHalves := kwB kw "break_halves" }
+
+def ps (s : String) : PyVal := .str s.toList
+def optI (o : Option Int) : PyVal := match o with | some i => .int i | none => .none
+
+def tractSnap (t : Obj.TractObj) : PyVal :=
+  let d := t.trs
+  let il := match Tract.ilots t.lots with
+    | .ok l => PyVal.list (l.map .int)
+    | .error e => .str ("!" ++ e.name).toList
+  .dict ([(ps "trs", .str d.trs), (ps "twp", .str d.twp), (ps "rge", .str d.rge), (ps "sec", .ofOptStr d.sec),
+    (ps "twp_num", optI d.twpNum), (ps "rge_num", optI d.rgeNum), (ps "sec_num", optI d.secNum),
+    (ps "twp_ns", .ofOptStr d.twpNs), (ps "rge_ew", .ofOptStr d.rgeEw), (ps "twprge", .str (d.twp ++ d.rge)),
+    (ps "desc", .str t.desc), (ps "orig_desc", .ofOptStr t.origDesc), (ps "orig_index", .int t.origIndex),
+    (ps "source", .ofOptStr t.source), (ps "pp_desc", .str t.ppDesc), (ps "parse_complete", .bool t.parseComplete),
+    (ps "lots", .strs t.lots), (ps "qqs", .strs t.qqs), (ps "lot_acres", dictPy t.lotAcres),
+    (ps "aliquots_whole", .strs t.aliquotsWhole), (ps "ilots", il),
+    (ps "config", .str (Config.toText t.config))] ++ flagsPy t.fl)
+
+def descSnap (d : Obj.DescObj) : PyVal :=
+  .dict ([(ps "current_layout", .ofOptStr d.currentLayout), (ps "pp_desc", .str d.ppDesc),
+    (ps "desc_is_flawed", .bool (!d.fl.e.isEmpty)),
+    (ps "tracts", .list (d.tracts.map tractSnap))] ++ flagsPy d.fl)
+
+def handleObj (fs : List String) : Option String :=
+  match fs with
+  | ["plss.pp", ns, ew, t, dns, dew, ocr] =>
+    some (match Plss.plssPreprocess (decMC ns ew) (decText t) (decOpt dns) (decOpt dew) (decBool ocr) with
+      | .ok r => if r.diverged then "?diverged" else (PyVal.tup [.str r.text, .strs r.fixed]).render
+      | .error e => "!" ++ e.name)
+  | ["plss.layout", t] => some (PyVal.str (Plss.deduceLayout (decText t))).render
+  | ["plss.cleanup", t] => some (PyVal.str (Plss.cleanupDesc (decText t))).render
+  | ["plss.find_twprge", ns, ew, t, dns, dew, pre, ocr] =>
+    some (match Plss.findTwprge (decMC ns ew) (decText t) (decOpt dns) (decOpt dew) (decBool pre) (decBool ocr) with
+      | .ok r => (PyVal.strs r).render
+      | .error e => "!" ++ e.name)
+  | ["plss.find_sec", t] => some (PyVal.strs (Plss.findSec (decText t))).render
+  | ["config.text", t] =>
+    some (match Config.ofText (decText t) with
+      | .ok c => (PyVal.tup [Config.renderCfg c, .str (Config.toText c)]).render
+      | .error e => "!" ++ e.name)
+  | ["desc.init", ns, ew, t, layout, cfg, pq, src, wait, kwf] =>
+    -- PLSSDesc(t, layout, config, parse_qq, source, wait_to_parse) then optionally .parse(commit=False, **kw)
+    some (match Obj.descInit (decMC ns ew) 0 (decText t) (decOpt layout) (decCfgArg cfg)
+              (match decKV pq with | .b v => some v | _ => none) (decOpt src)
+              (match decKV wait with | .b v => some v | _ => none) with
+      | .error e => "!" ++ e.name
+      | .ok (d, uid) =>
+        if d.diverged then "?diverged" else
+        if kwf == "-" then (descSnap d).render else
+        match Obj.descParse (decMC ns ew) uid d (descKw (decKwargs kwf)) false with
+        | .error e => "!" ++ e.name
+        | .ok (d2, out) =>
+          if out.diverged then "?diverged" else
+          (PyVal.tup [descSnap d2, .list (out.tracts.map tractSnap)]).render)
+  | ["tract.init", t, trs, cfg, pq, kwf] =>
+    some (match Obj.tractInit 0 (decText t) (decOpt trs) (decCfgArg cfg) (match decKV pq with | .b v => some v | _ => none) none none 0 with
+      | .error e => "!" ++ e.name
+      | .ok tr =>
+        if tr.diverged then "?diverged" else
+        if kwf == "-" then (tractSnap tr).render else
+        match Obj.tractParseMethod tr true (tractKw (decKwargs kwf)) with
+        | .error e => "!" ++ e.name
+        | .ok (t2, ret) => if t2.diverged then "?diverged" else (PyVal.tup [tractSnap t2, .strs ret]).render)
+  | _ => none
+
 def handleModel (fs : List String) : Option String :=
+  match handleObj fs with
+  | some r => some r
+  | none =>
   match fs with
   | ["aliquot.parse", t, mn, mx, d, bh] =>
     some (match Aliquot.parseAliquot (decText t) (depthArgs mn mx d bh) with
